@@ -60,6 +60,7 @@ fn op_kind(op: &Op) -> &'static str {
         Op::Require(..) => "require",
         Op::SetBest(..) => "set_best",
         Op::SetBestHere(..) => "set_best_here",
+        Op::ConfigureLog { .. } => "configure_log",
         Op::SetWhileBorrowed(..) => "set_value-while-borrowed",
         Op::GetWhileBorrowedMut(..) => "try_get_value-while-borrowed-mut",
         Op::MultiWrite { .. } => "try_get_multiple_mut",
